@@ -3,7 +3,7 @@
    statements, `exact` and Print Assumptions. *)
 From Coq Require Import QArith.
 From GV Require Import Vedirect.DrvSem Gen.DrvImpl Vedirect.DrvRefine Api.ApiSem Gen.ApiImpl Api.ApiRefine
-     Api.ApiRefineTables Api.ApiProps.
+     Api.ApiRefineTables Api.ApiProps Api.ApiValueFacts.
 Import ListNotations.
 Local Open Scope Z_scope.
 
@@ -21,4 +21,24 @@ Theorem C15_api_fieldlist_bits : forall c r v idle hist cn fs sa, r_kind r = 4 -
                  fs = fl_fields (f_map f) (n mod 2 ^ f_bits f).
 Proof. exact src_fieldlist_bits. Qed.
 Print Assumptions C15_api_fieldlist_bits.
+
+(* THE RENDERING CLAUSE of the property on the translated source: for every field-list type of the tables,
+   every raw value and EVERY order in which `range` may visit the field map (every permutation is a
+   shuffle: shuffle_surjective), CommaString names exactly the set fields, each once, by ascending index --
+   the model's fl_render -- and is therefore identical every time it is produced *)
+Theorem C15_api_CommaString : forall f r raw ord s, In f obs_fieldlists -> fl_of (r_factory r) = Some f ->
+  go_CommaString (mkFlv r (fl_fields (f_map f) raw)) ord s
+  = (DVal (list_byte_of_string (fl_render (f_map f) raw)), s).
+Proof. exact go_CommaString_spec. Qed.
+Print Assumptions C15_api_CommaString.
+
+Theorem C15_api_CommaString_deterministic : forall f r raw ord1 ord2 s, In f obs_fieldlists -> fl_of (r_factory r) = Some f ->
+  go_CommaString (mkFlv r (fl_fields (f_map f) raw)) ord1 s = go_CommaString (mkFlv r (fl_fields (f_map f) raw)) ord2 s.
+Proof. exact go_CommaString_deterministic. Qed.
+Print Assumptions C15_api_CommaString_deterministic.
+
+Theorem C15_api_every_map_order : forall (l l' : list ((Z * string) * bool)),
+  Sorting.Permutation.Permutation l l' -> exists ks, shuffle ks l = l'.
+Proof. exact (@shuffle_surjective ((Z * string) * bool)). Qed.
+Print Assumptions C15_api_every_map_order.
 
